@@ -468,12 +468,63 @@ Definition sf_judge (x : sf_case) : N :=
   + (if sf_c01_ok (sf_failed_seqs x) c then 0 else 2)
   + (if sf_c20_ok c then 0 else 4).
 
-(* what the harness emits: an event-history case, a real-time case, or an event-history case
-   with failing sent-storage Stores *)
-Inductive upx_case := UC (c : up_case) | RT (c : rt_case) | SF (c : sf_case).
+(* ------------------------------------------------------------------------------------------ *)
+(* Concurrent flushers (h-upstream kind flushers): several goroutines, each with its OWN data id,
+   loop {WriteDataPoints(own id); Flush(); observe}.  The harness judges every round and shows one
+   goroutine's window in program order (the first anomaly if there is one).  Per op the
+   observation is: the own-id points (from the window start) in chunks whose sequence number is at
+   most State().LastIssuedSequenceNumber read right after the op returned (contents from the
+   broker's ledger), and the own-id points in State().DataPointsBuffer of that same snapshot.
+   [fl_ok] is the barrier on the observation alone: after a Flush that returned nil, every own-id
+   point accepted before is in such a chunk and none is buffered.  [fl_corr]: the model run of that
+   goroutine's sequence alone predicts the same own-id projections (other goroutines' events touch
+   other data ids only). *)
+
+Record fl_case := mkFlCase {
+  fl_pol : policy;
+  fl_workers : N;            (* goroutines, each with its own data id, each looping {Write own id; Flush; observe} *)
+  fl_rounds : N;             (* rounds per goroutine *)
+  fl_id : N;                 (* the data id of the goroutine whose window is shown (the first anomaly, else goroutine 1) *)
+  fl_ops : list uop;         (* that goroutine's last rounds in program order: Write fl_id ps; Flush; ... *)
+  fl_rets : list N;
+  fl_obs : list (list pt * list pt);
+  fl_final_ok : bool
+}.
+Fixpoint fl_walk (id : N) (ops : list uop) (rets : list N) (obs : list (list pt * list pt)) (acc : list pt) : bool :=
+  match ops, rets, obs with
+  | o :: ops', r :: rets', ob :: obs' =>
+      let acc' := match o with Write k ps => if (k =? id) && (r =? 0) then acc ++ ps else acc | _ => acc end in
+      (match o with Flush => if r =? 0 then pts_eqb (fst ob) acc' && pts_eqb (snd ob) [] else true | _ => true end)
+      && fl_walk id ops' rets' obs' acc'
+  | [], _, _ => true
+  | _, _, _ => false
+  end.
+Definition fl_ok (c : fl_case) : bool := fl_walk (fl_id c) (fl_ops c) (fl_rets c) (fl_obs c) [].
+Fixpoint fl_corr_walk (id : N) (s : ustate) (ops : list uop) (rets : list N) (obs : list (list pt * list pt))
+         (sent : list pt) : bool :=
+  match ops, rets, obs with
+  | o :: ops', r :: rets', ob :: obs' =>
+      let st := ustep s o in
+      let s' := fst (fst st) in
+      let sent' := sent ++ chunks_pts id (chunks_of (snd (fst st))) in
+      (snd st =? r)
+      && (match o with Flush => pts_eqb (fst ob) sent' && pts_eqb (snd ob) (buf_pts id (u_buf s')) | _ => true end)
+      && fl_corr_walk id s' ops' rets' obs' sent'
+  | [], _, _ => true
+  | _, _, _ => false
+  end.
+Definition fl_corr (c : fl_case) : bool :=
+  fl_corr_walk (fl_id c) (uinit (fl_pol c) []) (fl_ops c) (fl_rets c) (fl_obs c) [].
+Definition fl_judge (c : fl_case) : N :=
+  (if fl_corr c then 0 else 1) + (if fl_final_ok c then 0 else 2) + (if fl_ok c then 0 else 4).
+
+(* what the harness emits: an event-history case, a real-time case, an event-history case with
+   failing sent-storage Stores, or a concurrent-flushers case *)
+Inductive upx_case := UC (c : up_case) | RT (c : rt_case) | SF (c : sf_case) | FL (c : fl_case).
 Definition upx_judge (x : upx_case) : N :=
   match x with
   | UC c => up_judge c
   | RT c => (if rt_corr c then 0 else 1) + (if rt_totals_ok c then 0 else 2) + (if rt_ok c then 0 else 4)
   | SF c => sf_judge c
+  | FL c => fl_judge c
   end.
